@@ -135,6 +135,18 @@ static void probe(void *vs)
           else { spif_obj_t *a = SPIF_VECTOR_TO_ARRAY(d), *b = SPIF_VECTOR_TO_ARRAY(v);
               for (int i = 0; i < s->n; i++) if (!a[i] || a[i] == b[i] || !is_str(a[i], (char *) SPIF_STR(b[i])->s)) { FAIL(site("dup"), "model:element", shape, "dup position %d is not an equal distinct copy", i); break; }
               free(a); free(b); }
+          /* the copy is a vector of its own: a new greatest and a new smallest element go into it, and only into it */
+          { spif_obj_t hi = S_("zz"), lo = S_("A"), px = S_("zz"), pl = S_("A");
+            SPIF_VECTOR_INSERT(d, hi); SPIF_VECTOR_INSERT(d, lo);
+            int dn = (int) SPIF_VECTOR_COUNT(d);
+            if (dn != s->n + 2) FAIL(site("dup"), "model:copy-count", shape, "the copy counts %d after two inserts into a copy of %d elements", dn, s->n);
+            else { spif_obj_t *a = SPIF_VECTOR_TO_ARRAY(d);
+                if (!a || a[0] != lo || a[dn - 1] != hi) FAIL(site("dup"), "model:copy-order", shape, "the copy does not hold its new smallest/greatest element at its ends");
+                for (int i = 0; a && i + 1 < dn; i++) if (SPIF_CMP_IS_GREATER(SPIF_OBJ_COMP(a[i], a[i + 1]))) { FAIL(site("dup"), "model:copy-order", shape, "the copy is not sorted at position %d", i); break; }
+                if (a) free(a); }
+            if (SPIF_VECTOR_FIND(d, px) != hi || SPIF_VECTOR_FIND(d, pl) != lo) FAIL(site("dup"), "model:copy-find", shape, "the copy does not find the elements just inserted into it");
+            if (SPIF_VECTOR_FIND(v, px) || SPIF_VECTOR_FIND(v, pl) || (int) SPIF_VECTOR_COUNT(v) != s->n) FAIL(site("dup"), "model:not-independent", shape, "inserting into the copy changed the original");
+            SPIF_OBJ_DEL(px); SPIF_OBJ_DEL(pl); }
           SPIF_VECTOR_DEL(d); } }
     check_struct(s, "queries", shape);
 }
@@ -145,6 +157,50 @@ static void canon(void *vs, char *b, size_t n)
 }
 static void teardown(void *vs) { st_t *s = vs; SPIF_VECTOR_DEL(s->v); free(s); }
 
+/* ---- large vectors: sizes around 127/255/256/512 (thresholds where an implementation may switch strategy), three insertion orders,
+ * then a new greatest, a new smallest, a duplicate of the greatest and a middle element; every element is looked up afterwards */
+static const int BIGN[] = { 126, 127, 128, 254, 255, 256, 257, 300, 511, 512, 513 };
+#define NBIGN ((int) (sizeof BIGN / sizeof BIGN[0]))
+static void big_decode(uint64_t idx, int *cls, int *n, int *order) { *cls = (int) (idx % 3); idx /= 3; *order = (int) (idx % 3); idx /= 3; *n = BIGN[idx % NBIGN]; }
+static void big_desc(uint64_t idx, void *ctx, char *b, size_t n_)
+{
+    int cls, n, order; (void) ctx; big_decode(idx, &cls, &n, &order);
+    snprintf(b, n_, "%s vector: %d distinct keys inserted in %s order, then a new greatest, a new smallest, a duplicate of the greatest and a middle key; sortedness, count and find of every key",
+             CN[cls], n, order == 0 ? "ascending" : (order == 1 ? "descending" : "interleaved"));
+}
+static int cmpstr(const void *a, const void *b) { return strcmp(*(const char *const *) a, *(const char *const *) b); }
+static void big_case(uint64_t idx, void *ctx)
+{
+    int cls, n, order; (void) ctx; big_decode(idx, &cls, &n, &order);
+    CLS = cls;
+    char shape[64]; snprintf(shape, sizeof shape, "%d keys", n); mc_set_shape(shape);
+    spif_vector_t v = new_vec();
+    static char names[600][12]; const char *model[600]; int m = 0;
+    for (int i = 0; i < n; i++) { int k = order == 0 ? i : (order == 1 ? n - 1 - i : (i % 2 ? n - 1 - i / 2 : i / 2)); snprintf(names[m], sizeof names[m], "k%05d", 2 * k + 10); model[m] = names[m]; SPIF_VECTOR_INSERT(v, S_(names[m])); m++; }
+    static const char *extra_fmt[4] = { "k%05d", "k%05d", "k%05d", "k%05d" };
+    int extra_key[4] = { 2 * n + 20, 0, 2 * n + 20, n + 11 };          /* new greatest, new smallest, duplicate of the (new) greatest, an odd key in the middle */
+    for (int e = 0; e < 4; e++) { snprintf(names[m], sizeof names[m], extra_fmt[e], extra_key[e]); model[m] = names[m]; SPIF_VECTOR_INSERT(v, S_(names[m])); m++; }
+    qsort(model, (size_t) m, sizeof model[0], cmpstr);
+    if ((int) SPIF_VECTOR_COUNT(v) != m) FAIL(site("count"), "model:return", shape, "count=%d after %d inserts", (int) SPIF_VECTOR_COUNT(v), m);
+    else {
+        spif_obj_t *a = SPIF_VECTOR_TO_ARRAY(v);
+        if (!a) FAIL(site("to_array"), "model:return", shape, "to_array returned NULL");
+        else { for (int i = 0; i < m; i++) if (!is_str(a[i], model[i])) { FAIL(site("insert"), "model:order", shape, "position %d holds \"%s\", the sorted sequence has \"%s\"", i, a[i] && SPIF_STR(a[i])->s ? (char *) SPIF_STR(a[i])->s : "?", model[i]); break; }
+            free(a); }
+        spif_iterator_t it = SPIF_VECTOR_ITERATOR(v); int k = 0;
+        while (it && k <= m && SPIF_ITERATOR_HAS_NEXT(it)) { spif_obj_t g = SPIF_ITERATOR_NEXT(it); if (k < m && !is_str(g, model[k])) { FAIL(site("iterator"), "model:order", shape, "iteration position %d is not \"%s\"", k, model[k]); break; } k++; }
+        if (it) SPIF_ITERATOR_DEL(it);
+        if (k != m) FAIL(site("iterator"), "model:count", shape, "iteration yielded %d of %d elements", k, m);
+    }
+    for (int i = 0; i < m; i++) { spif_obj_t p = S_(model[i]); spif_obj_t f = SPIF_VECTOR_FIND(v, p); if (!f || !is_str(f, model[i])) { FAIL(site("find"), "model:return", shape, "find(\"%s\") %s", model[i], f ? "returned another element" : "missed a stored element"); SPIF_OBJ_DEL(p); break; } SPIF_OBJ_DEL(p); }
+    { spif_obj_t p = S_("k00001"); if (SPIF_VECTOR_FIND(v, p)) FAIL(site("find"), "model:return", shape, "find of an absent key returned an element"); SPIF_OBJ_DEL(p); }
+    /* removal hands each element back exactly once, from both ends and the middle */
+    { const char *rm[3] = { model[0], model[m - 1], model[m / 2] };
+      for (int r = 0; r < 3; r++) { spif_obj_t p = S_(rm[r]); spif_obj_t g = SPIF_VECTOR_REMOVE(v, p); if (!g || !is_str(g, rm[r])) FAIL(site("remove"), "model:return", shape, "remove(\"%s\") did not hand back an equal element", rm[r]); if (g) SPIF_OBJ_DEL(g); SPIF_OBJ_DEL(p); } }
+    SPIF_VECTOR_DEL(v);
+    mc_nontrivial();
+    mc_outcome((uint64_t) n * 9 + (uint64_t) order * 3 + (uint64_t) cls);
+}
 int main(int argc, char **argv)
 {
     mc_init("C04", argc, argv);
@@ -161,5 +217,6 @@ int main(int argc, char **argv)
         mc_sys sys = { CN[CLS], NOPS, op_name, fresh, enabled, apply, probe, canon, teardown, (int) mc_arg_int("lookahead", 1) };
         mc_e1_run(&sys, (int) mc_arg_int("depth", 40));
     }
+    if (!only) mc_e2_level("large", 513, (uint64_t) 3 * 3 * NBIGN, big_case, big_desc, NULL);
     return mc_finish();
 }
